@@ -52,9 +52,9 @@ Definition sp0 : sp := {| sp_keys := []; sp_sub := []; sp_tx := []; sp_allowed :
 (* steps in which the device runs SendStagedPackets for the peer *)
 Definition is_flush (nx : option N) (e : ev) : bool :=
   match e with
-  | TunBatch (_ :: _) | Answer _ | Uapi _ => true
+  | TunBatch (_ :: _) | TunBatchErr (_ :: _) _ _ | Answer _ | Uapi _ => true
   | RefData => match nx with Some _ => true | None => false end
-  | _ => false
+  | _ => false      (* TunBatchIErr: the bind refuses the initiation, so none can be demanded on the wire *)
   end.
 
 (* last counter sent under idx among tx (latest first) *)
@@ -97,7 +97,12 @@ Definition sp_step (i : N) (s : sp) (e : ev) (o : out) : sp * bool :=
                | _ => None
                end in
   let keys := match fresh with Some idx => (idx, i) :: sp_keys s | None => sp_keys s end in
-  let subs := match e with TunBatch l => map (fun p => (p, i)) l ++ sp_sub s | _ => sp_sub s end in
+  (* packets the bind itself refused (Send error) are excused: they are lost by the network, not by the device *)
+  let subs := match e with
+              | TunBatch l | TunBatchIErr l => map (fun p => (p, i)) l ++ sp_sub s
+              | TunBatchErr l _ lost => map (fun p => (p, i)) (filter (fun p => negb (memN p lost)) l) ++ sp_sub s
+              | _ => sp_sub s
+              end in
   let ok_tx := txs_ok i keys subs (sp_tx s) (o_tx o) in
   let sent := rev (o_tx o) ++ sp_tx s in
   let ok_complete :=
@@ -105,14 +110,21 @@ Definition sp_step (i : N) (s : sp) (e : ev) (o : out) : sp * bool :=
     | Some idx => if existsb (fun t => tx_idx t =? idx) (o_tx o) then all_sent subs sent else true
     | None => true
     end in
-  let passed := existsb (fun t => Rekey <? tx_ctr t) (o_tx o) in
+  let passed := match e with
+                | TunBatchErr _ _ _ => false      (* after a failed Send the sender does not look at the counter *)
+                | _ => existsb (fun t => Rekey <? tx_ctr t) (o_tx o)
+                end in
   let behind := negb (all_sent subs sent) in
   let ok_rekey :=
-    if sp_allowed s && is_flush (sp_next s) e && (passed || behind) then 1 <=? o_init o else true in
+    match e with
+    | Retransmit => if behind then 1 <=? o_init o else true   (* an unanswered initiation is repeated while packets wait *)
+    | _ => if sp_allowed s && is_flush (sp_next s) e && (passed || behind) then 1 <=? o_init o else true
+    end in
   let allowed :=
     match e with
     | AllowInit => true
     | RefInit _ => false                  (* our response counts for the 5 s spacing *)
+    | TunBatchIErr (_ :: _) => if passed || behind then false else sp_allowed s   (* the refused attempt counts *)
     | _ => if 1 <=? o_init o then false else sp_allowed s
     end in
   let next' :=
